@@ -132,24 +132,24 @@ Fixpoint alt_loop (l : list re) (base : str) (first : bool) (acc : list str) (cs
   end.
 
 (* findSetMatchesFromConcat: the loop over the current matches for sub-expression x *)
-Fixpoint inner_loop (x : re) (i0 : bool) (bs : list str) (j0 : bool) (nm : list str) (mcs : bool)
-  : option (list str * bool) :=
+Fixpoint inner_loop (g : str -> list str * bool) (i0 : bool) (bs : list str) (j0 : bool)
+  (nm : list str) (mcs : bool) : option (list str * bool) :=
   match bs with
   | [] => Some (nm, mcs)
   | b :: bs' =>
-      let '(m, c) := f x b in
+      let '(m, c) := g b in
       if isnil m then None
       else if too_many nm m then None
       else let mcs' := if i0 && j0 then c else mcs in
            if negb (Bool.eqb mcs' c) then None
-           else inner_loop x i0 bs' false (nm ++ m) mcs'
+           else inner_loop g i0 bs' false (nm ++ m) mcs'
   end.
 
 Fixpoint cat_loop (l : list re) (i0 : bool) (matches : list str) (mcs : bool) : list str * bool :=
   match l with
   | [] => (matches, mcs)
   | x :: t =>
-      match inner_loop x i0 matches true [] mcs with
+      match inner_loop (f x) i0 matches true [] mcs with
       | None => ([], false)
       | Some (nm, mcs') => cat_loop t false nm mcs'
       end
@@ -227,7 +227,29 @@ Definition optimize_concat (subs0 : list re) : bool * str * str * list str :=
       (ci, prefix, suffix, middle_contains t)
   end.
 
+(* isSimpleConcatenationPattern: the loop over re.Sub[1:len-1] with its prevLiteral flag
+   (two adjacent literals are rejected; fix d2b0409570) *)
+Fixpoint simple_mid (l : list re) (prev : bool) : bool :=
+  match l with
+  | [] => true
+  | x :: t =>
+      if is_match_any x then simple_mid t false
+      else if is_cs_literal x then (if prev then false else simple_mid t true)
+      else false
+  end.
+
 Definition is_simple_concat (r : re) : bool :=
+  match r with
+  | RConcat l =>
+      if len l <? 2 then false
+      else is_match_any (hd RNoMatch l) && is_match_any (last l RNoMatch) &&
+           simple_mid (removelast (tl l)) false
+  | _ => false
+  end.
+
+(* the code before "fix: labels: FastRegexMatcher accepts text between adjacent literals of a
+   simple concatenation": every middle element a wildcard or a case-sensitive literal *)
+Definition is_simple_concat_old (r : re) : bool :=
   match r with
   | RConcat l =>
       if len l <? 2 then false
@@ -240,58 +262,81 @@ Definition is_simple_concat (r : re) : bool :=
 Definition is_wild_op (r : re) : bool :=
   match r with RPlus _ | RStar _ | RQuest _ => true | _ => false end.
 
-(* the OpConcat case after the recursive calls have been made: ps pairs every (capture-free)
-   sub-expression with the matcher stringMatcherFromRegexpInternal returns for it *)
-Definition concat_logic (ps : list (re * option sm)) : option sm :=
+(* The OpConcat case after the recursive calls have been made: ps pairs every (capture-free)
+   sub-expression with the matcher stringMatcherFromRegexpInternal returns for it. Three
+   steps: (1) split off a leading / trailing Plus|Star|Quest (None = "return nil");
+   (2) findSetMatchesInternal on what is left, or the literal+matcher special cases;
+   (3) the final switch. *)
+Definition is_none {A} (o : option A) : bool := match o with None => true | _ => false end.
+
+Definition split_wild (ps : list (re * option sm))
+  : option (option sm * list (re * option sm) * option sm) :=
   match ps with
-  | [] => Some SEmpty
-  | [(_, m)] => m
+  | [] => None
   | (x0, m0) :: rest =>
       let lw := is_wild_op x0 in
-      if lw && match m0 with None => true | _ => false end then None else
+      if lw && is_none m0 then None else
       let lft := if lw then m0 else None in
       let ps1 := if lw then rest else ps in
       let '(xl, ml) := last ps1 (RNoMatch, None) in
       let rw := is_wild_op xl in
-      if rw && match ml with None => true | _ => false end then None else
+      if rw && is_none ml then None else
       let rgt := if rw then ml else None in
       let mid := if rw then removelast ps1 else ps1 in
-      let '(matches, mcs) := fsm (RConcat (map fst mid)) [] in
-      let '(lft, rgt, matches, mcs) :=
-        match isnil matches, mid with
-        | true, [(a, ma); (b, mb)] =>
-            match rgt, lit_of a with
-            | None, Some (f, rs) =>
-                match mb with
-                | Some _ => (lft, mb, [rs], negb f)
-                | None => (lft, rgt, matches, mcs)
-                end
-            | _, _ =>
-                match lft, lit_of b with
-                | None, Some (f, rs) =>
-                    match ma with
-                    | Some _ => (ma, rgt, [rs], negb f)
-                    | None => (lft, rgt, matches, mcs)
-                    end
-                | _, _ => (lft, rgt, matches, mcs)
-                end
-            end
-        | _, _ => (lft, rgt, matches, mcs)
-        end in
-      match matches with
-      | [] => None
-      | m1 :: mt =>
-          match lft, rgt with
-          | None, None => Some (SOr (map (fun m => SEqual m mcs) matches))
-          | None, Some rt =>
-              if isnil mt then Some (SPrefix mcs m1 rt)
-              else if mcs then Some (SContains lft matches rgt) else None
-          | Some lf, None =>
-              if isnil mt then Some (SSuffix lf m1 mcs)
-              else if mcs then Some (SContains lft matches rgt) else None
-          | Some _, Some _ =>
-              if mcs then Some (SContains lft matches rgt) else None
+      Some (lft, mid, rgt)
+  end.
+
+Definition refine_mid (lft : option sm) (mid : list (re * option sm)) (rgt : option sm)
+  : option sm * option sm * list str * bool :=
+  let '(matches, mcs) := fsm (RConcat (map fst mid)) [] in
+  match isnil matches, mid with
+  | true, [(a, ma); (b, mb)] =>
+      match rgt, lit_of a with
+      | None, Some (f, rs) =>
+          match mb with
+          | Some _ => (lft, mb, [rs], negb f)
+          | None => (lft, rgt, matches, mcs)
           end
+      | _, _ =>
+          match lft, lit_of b with
+          | None, Some (f, rs) =>
+              match ma with
+              | Some _ => (ma, rgt, [rs], negb f)
+              | None => (lft, rgt, matches, mcs)
+              end
+          | _, _ => (lft, rgt, matches, mcs)
+          end
+      end
+  | _, _ => (lft, rgt, matches, mcs)
+  end.
+
+Definition assemble (lft rgt : option sm) (matches : list str) (mcs : bool) : option sm :=
+  match matches with
+  | [] => None
+  | m1 :: mt =>
+      match lft, rgt with
+      | None, None => Some (SOr (map (fun m => SEqual m mcs) matches))
+      | None, Some rt =>
+          if isnil mt then Some (SPrefix mcs m1 rt)
+          else if mcs then Some (SContains lft matches rgt) else None
+      | Some lf, None =>
+          if isnil mt then Some (SSuffix lf m1 mcs)
+          else if mcs then Some (SContains lft matches rgt) else None
+      | Some _, Some _ =>
+          if mcs then Some (SContains lft matches rgt) else None
+      end
+  end.
+
+Definition concat_logic (ps : list (re * option sm)) : option sm :=
+  match ps with
+  | [] => Some SEmpty
+  | [(_, m)] => m
+  | _ =>
+      match split_wild ps with
+      | None => None
+      | Some (lft, mid, rgt) =>
+          let '(lft', rgt', matches, mcs) := refine_mid lft mid rgt in
+          assemble lft' rgt' matches mcs
       end
   end.
 
@@ -532,7 +577,7 @@ Record frm := mkFrm {
   f_suffix : str;
   f_contains : list str }.
 
-Definition new_frm (pat : str) (parsed : re) : frm :=
+Definition new_frm_gen (simple : re -> bool) (pat : str) (parsed : re) : frm :=
   match optimize_alternating_literals pat with
   | Some (m, set) => mkFrm None set (Some m) false [] [] []
   | None =>
@@ -549,10 +594,13 @@ Definition new_frm (pat : str) (parsed : re) : frm :=
       let sm0 := if 1 <? len matches then Some (new_multi cs (len matches) matches) else None in
       let sm1 := match sm0 with
                  | Some _ => sm0
-                 | None => if is_simple_concat p4 then Some STrue else string_matcher_from_regexp p4
+                 | None => if simple p4 then Some STrue else string_matcher_from_regexp p4
                  end in
       mkFrm (Some p1) set sm1 ci prefix suffix contains
   end.
+
+Definition new_frm := new_frm_gen is_simple_concat.
+Definition new_frm_old := new_frm_gen is_simple_concat_old.
 
 Fixpoint contains_in_order_multi (s : str) (subs : list str) : bool :=
   match subs with
